@@ -2,9 +2,8 @@
 (* Repeater storage (okdmr/dmrlib/storage/repeater_storage.py, repeater.py).              *)
 (* One operator per method; the state is the insertion-ordered sequence of records the    *)
 (* code keeps in its dict.  Deviations of the code are modelled, not idealised:           *)
-(*   - match_incoming / save with a non-empty patch on "nothing found" raises;            *)
 (*   - delete_attr of a missing key raises (KeyError) although documented to return False *)
-(*   - a dynamic-attribute patch value None is ignored, a built-in one is assigned.       *)
+(*   - a dynamic attribute cannot hold None (attr(key, None) reads): None = absent.       *)
 (* Used by: MC_Storage (exhaustive + edge dump), Trace_Storage (trace validation), P2P.   *)
 EXTENDS Integers, Sequences, FiniteSets, SequencesExt, TLC
 
@@ -34,8 +33,7 @@ NewRec(n, a, keys) ==
 \* Repeater.patch: setattr for members, attr() for the rest, None ignored there
 PatchOne(r, kv) ==
   IF kv.k \in Builtin THEN [r EXCEPT !.f[kv.k] = kv.v]
-  ELSE IF kv.v # NoneV THEN [r EXCEPT !.attrs[kv.k] = kv.v]
-  ELSE r
+  ELSE [r EXCEPT !.attrs[kv.k] = kv.v]          \* a dynamic attribute patched with None is taken away (None = absent)
 ApplyPatch(r, p) == FoldLeft(PatchOne, r, p)
 
 \* first index whose record satisfies P, 0 if none  (match_attr keeps the first hit)
@@ -52,7 +50,7 @@ Result(recs, ret, val, out) == [recs |-> recs, ret |-> ret, val |-> val, out |->
 
 SaveAt(recs, i, p) ==                        \* RepeaterStorage.save on the record at index i
   IF Len(p) = 0 THEN Result(recs, IF i = 0 THEN 0 ELSE recs[i].id, NoneV, "ok")
-  ELSE IF i = 0 THEN Result(recs, 0, NoneV, "raise")          \* None.id -> AttributeError
+  ELSE IF i = 0 THEN Result(recs, 0, NoneV, "ok")             \* nothing found, nothing patched: None comes back
   ELSE Result([recs EXCEPT ![i] = ApplyPatch(@, p)], recs[i].id, NoneV, "ok")
 
 MatchIncoming(recs, a, auto, p, keys) ==
@@ -131,9 +129,10 @@ GrowRule(recs, a, r) ==
 \* same address -> same record: a lookup by incoming address returns the first record that
 \* carries it (and a fresh record has a fresh id)
 SameAddressSameId(recs, a, r) ==
-  (a.op = "match_incoming" /\ r.out = "ok") =>
+  (a.op = "match_incoming") =>
      LET i == FirstIdx(recs, LAMBDA x : x.f["address_in"] = AddrV(a.addr))
-     IN IF i # 0 THEN r.ret = recs[i].id
+     IN IF r.out # "ok" THEN FALSE                       \* a lookup "returns": the record, or None - with or without a patch
+        ELSE IF i # 0 THEN r.ret = recs[i].id
         ELSE IF a.auto THEN r.ret \notin {recs[k].id : k \in 1..Len(recs)} /\ r.ret # 0
         ELSE r.ret = 0
 
@@ -154,10 +153,9 @@ PatchApplied(recs, a, r, keys) ==
      LET j == IdxOfId(r.recs, r.ret) IN
      \A n \in 1..Len(a.patch) :
         LET kv == a.patch[n]
-            later == \E m \in (n + 1)..Len(a.patch) : a.patch[m].k = kv.k /\
-                        (kv.k \in Builtin \/ a.patch[m].v # NoneV)
+            later == \E m \in (n + 1)..Len(a.patch) : a.patch[m].k = kv.k
         IN later \/ IF kv.k \in Builtin THEN r.recs[j].f[kv.k] = kv.v
-                    ELSE (kv.v # NoneV => r.recs[j].attrs[kv.k] = kv.v)
+                    ELSE r.recs[j].attrs[kv.k] = kv.v          \* None included: the named attribute is then absent
 
 \* "of no other record" also holds for records that do not exist yet: an auto-created record carries only the
 \* dynamic attributes its own creating call names (nothing written to another record earlier shows through)
